@@ -306,8 +306,29 @@ def _case(draw):
     }
 
 
+def _smaller(case):
+    """Smaller variants of a tree case: one file less, one fault less, no extras."""
+    for i in range(len(case["files"])):
+        yield dict(case, files=case["files"][:i] + case["files"][i + 1 :])
+    for i, (rel, spec) in enumerate(case["files"]):
+        if spec.get("bad") is not None or spec.get("blocked"):
+            yield dict(case, files=case["files"][:i] + [[rel, {"text": spec["text"]}]] + case["files"][i + 1 :])
+        if len(spec["text"]) > 200 and spec.get("bad") is None:
+            yield dict(case, files=case["files"][:i] + [[rel, dict(spec, text=spec["text"][:100] + "\n")]] + case["files"][i + 1 :])
+    if case.get("emptydirs"):
+        yield dict(case, emptydirs=[])
+    if case.get("preexisting"):
+        yield dict(case, preexisting=False)
+    if case.get("single"):
+        yield dict(case, single=False)
+    for k in range(4):
+        if case["features"][k] and sum(case["features"]) > 1:
+            yield dict(case, features=[f and j != k for j, f in enumerate(case["features"])])
+
+
 def t_trees(shard, nshards, seed, ev, known, n=30):
-    return core.hyp_drive(_case(), check_tree, n, seed, ev, known, check_name="trees", shrink=False, max_keys=6)
+    fs = core.hyp_drive(_case(), check_tree, n, seed, ev, known, check_name="trees", shrink=False, max_keys=6)
+    return [core.greedy_minimize(f, check_tree, _smaller) for f in fs]
 
 
 def plan(tier):
